@@ -1,6 +1,10 @@
 (* header_extension.go: the standalone OneByteHeaderExtension / TwoByteHeaderExtension /
    RawExtension views - the read side (Unmarshal, GetIDs, Get, Marshal, MarshalTo, MarshalSize).
-   The views keep the whole buffer handed to Unmarshal, 4-byte profile/length header included. *)
+   The views keep the whole buffer handed to Unmarshal, 4-byte profile/length header included.
+   A Go slice expression is bounded by the capacity, not the length: the views slice their buffer without
+   a length check of their own, so on a TRUNCATED block that sits in a larger array they read on into the
+   spare capacity where this model says Panic.  The model takes cap = len (what the harness hands over, and
+   all that matters for a well-formed block, whose elements lie inside its length). *)
 From Coq Require Import ZArith List Lia Bool.
 From RTP Require Import Base.Bits Base.Res Base.ListX Base.Bytes Model.RtpPacket.
 Import ListNotations.
